@@ -195,7 +195,8 @@ def _structural(unit, inst, meta, nmag):
         inst("R-C06-loop", False, fn, "local_values.vector[sld_index] = mag_sld(...)", sl.get("_line", 0), "store not found")
     # accumulate: F2 += xs_weight * model
     acc = [(l, r_, n, anc) for l, r_, n, anc in k.accumulations() if l == "F2"]
-    okacc = bool(acc) and norm(acc[0][1]).startswith("xs_weight*") and any(a is xl for a in acc[0][3]) and \
+    from ..ckernel import weighted_by
+    okacc = bool(acc) and weighted_by(kids(acc[0][2])[1], "xs_weight") and len(acc) == 1 and any(a is xl for a in acc[0][3]) and \
         not any(a is sl for a in acc[0][3])
     inst("R-C06-loop", okacc, fn, "F2 += xs_weight * model(...)", acc[0][2].get("_line", 0) if acc else 0,
          "one model call per channel after all SLDs are set")
